@@ -138,6 +138,52 @@ func c18Filenames(r *drv.Run) {
 		}
 		os.RemoveAll(dir)
 	}
+	// a replace command in file-name mode RENAMES files - and does the same renames under every replace mode, shown or
+	// not shown (-no-output): the directory after the run is the one the plain invocation leaves
+	n := 0
+	baseline := ""
+	for _, mode := range []string{"", "NOTHING", "NEW", "OVERWRITE"} {
+		for _, quiet := range []bool{false, true} {
+			n++
+			dir := filepath.Join(r.WorkDir, "c18names", fmt.Sprintf("r%d", n))
+			os.MkdirAll(dir, 0o755)
+			for _, f := range []string{"old.txt", "older.dat", "keep.txt"} {
+				os.WriteFile(filepath.Join(dir, f), []byte("content of "+f), 0o644)
+			}
+			args := []string{"-com", "replace all 'old.txt' with 'new.md'", "-files", "*.txt", "-filenames"}
+			if mode != "" {
+				args = append(args, "-replace-mode", mode)
+			}
+			if quiet {
+				args = append(args, "-no-output")
+			}
+			code, stdout, stderr := runCLI(r.CLIBin, dir, args)
+			r.Eval(1)
+			ents, _ := os.ReadDir(dir)
+			have := ""
+			for _, e := range ents {
+				b, _ := os.ReadFile(filepath.Join(dir, e.Name()))
+				have += e.Name() + "=" + string(b) + "; "
+			}
+			if n == 1 {
+				baseline = have
+				if code != 0 || !strings.Contains(have, "new.md") {
+					r.Inconclusive("the plain file-name rename did not rename: " + have + " | " + oneLineN(stderr, 120))
+					os.RemoveAll(dir)
+					break
+				}
+				os.RemoveAll(dir)
+				continue
+			}
+			if code != 0 || have != baseline {
+				r.Violate(&drv.Violation{Sig: "filenames:renames-depend-on-mode-or-output-flags", Src: "replace all 'old.txt' with 'new.md'",
+					Detail: map[string]any{"arguments": fmt.Sprint(args), "exit": code, "directory_afterwards": have, "directory_after_the_plain_invocation": baseline, "stdout": oneLineN(stdout, 120), "stderr": oneLineN(stderr, 160)}})
+			} else {
+				r.Count("filenames_renames_verified", 1)
+			}
+			os.RemoveAll(dir)
+		}
+	}
 	if r.NViolations() == 0 && r.Counter("filenames_invocations_verified") == 0 {
 		r.Inconclusive("coverage floor: filenames_invocations_verified = 0")
 	}
